@@ -16,7 +16,10 @@ through the same route -- so an edit must be visible in its own tree and invisib
 whatever the copy ancestry and whatever was observed before.  The reference results are computed before
 the exploration starts (in other processes), so computing them never runs in between two events of a history.
 
-After every event each tree is additionally observed on its own throw-away replay of the history
+An obs event is offered wherever another event can still follow it within the length bound (as the last event
+of a longest history it would only be followed by the final observations below, which are made anyway).
+
+After every copy and edit event each tree is additionally observed on its own throw-away replay of the history
 (`final observations': flatten(deepcopy(tree)) the way the backends do, plus every route an earlier obs
 event of the history went through -- a route can only have left something behind if it was used -- plus,
 thorough, flatten(tree) in place in any case; classes in the reverse order of obs(.., '*'), so that the
@@ -80,7 +83,7 @@ ROUTE_TEXT = {
 }
 MAX_TREES = 3
 MAX_OBS = 2
-BOUNDS = {"quick": (3, 2), "thorough": (4, 3)}  # history length, deviations (edits + obs events)
+BOUNDS = {"quick": (3, 2, 2), "thorough": (4, 3, 2)}  # history length, deviations (edit + obs events), edit events
 _CFG = {"tier": "quick", "obs_classes": ["*"]}
 _EXPECT = {}
 
@@ -183,11 +186,14 @@ class World:
         self.edits = [()]
         self.parent = [None]
         self.obslog = ()  # (tree, route, class, number of edits of that tree so far, number of trees so far)
+        self.n_events = 0
+        self.n_edit_events = 0
 
     def apply(self, ev):
         """Returns the violations of the event itself (only obs events are compared with anything)."""
         import copy
 
+        self.n_events += 1
         if ev[0] == "copy":
             i = ev[1]
             self.trees.append(copy.deepcopy(self.trees[i]))
@@ -196,6 +202,7 @@ class World:
             return []
         if ev[0] == "edit":
             _, i, op, cls = ev
+            self.n_edit_events += 1
             apply_edit(self.trees[i], op, cls, len(self.edits[i]))
             self.edits[i] = self.edits[i] + ((op, cls),)
             return []
@@ -245,13 +252,15 @@ class World:
         return (tuple(self.edits), tuple(self.parent), self.obslog, dump.digest(self.trees))
 
     def events(self):
+        depth, _, max_edits = BOUNDS[_CFG["tier"]]
         evs = []
         if len(self.trees) < MAX_TREES:
             evs += [("copy", i) for i in range(len(self.trees))]
-        for i in range(len(self.trees)):
-            for op, cls in EDIT_ACTIONS:
-                evs.append(("edit", i, op, cls))
-        if len(self.obslog) < MAX_OBS:
+        if self.n_edit_events < max_edits:
+            for i in range(len(self.trees)):
+                for op, cls in EDIT_ACTIONS:
+                    evs.append(("edit", i, op, cls))
+        if len(self.obslog) < MAX_OBS and self.n_events + 1 < depth:
             for i in range(len(self.trees)):
                 for route in OBS_ROUTES:
                     for cls in _CFG["obs_classes"]:
@@ -267,11 +276,12 @@ def build(hist):
 
 
 def step(hist, ev):
-    """Violations and successor key of `ev` after `hist`; every tree's final observations on a replay of its own."""
+    """Violations and successor key of `ev` after `hist`; after a copy or an edit every tree's final observations,
+    each on a replay of its own."""
     w = build(hist)
     viol = list(w.apply(ev))
     key = w.key()
-    for i in range(len(w.trees)):
+    for i in range(len(w.trees) if ev[0] != "obs" else 0):
         wi = w if i == 0 else build(tuple(hist) + (ev,))
         viol += wi.final(i)
     return key, viol
@@ -297,9 +307,9 @@ def edit_lists(max_edits):
 
 def run(ctx):
     _init(ctx.tier)
-    depth, max_dev = BOUNDS[ctx.tier]
+    depth, max_dev, max_edits = BOUNDS[ctx.tier]
     with common.Pool() as pool:  # reference table first, in processes of its own
-        prepare_expected(edit_lists(max_dev), pool)
+        prepare_expected(edit_lists(max_edits), pool)
     with common.Pool(init=_init, initargs=(ctx.tier,)) as pool:  # forked now: workers inherit the table
         st = bfs.search(ctx, pool, expand, init_key=build(()).key(), max_depth=depth, max_dev=max_dev)
     ctx.coverage.update(st)
@@ -310,16 +320,18 @@ def run(ctx):
             "distinct_nontrivial": max(0, st["states"] - 1),
             "reference_edit_lists": len(_EXPECT),
             "exhaustive": True,
-            "bound": {"history_length": depth, "edits_plus_obs_events": max_dev, "obs_events": MAX_OBS, "trees": MAX_TREES},
-            "rule": "all histories of length <= %d with <= %d deviations (edit or obs events, <= %d obs) over "
+            "bound": {"history_length": depth, "edits_plus_obs_events": max_dev, "edits": max_edits, "obs_events": MAX_OBS,
+                      "trees": MAX_TREES},
+            "rule": "all histories of length <= %d with <= %d deviations (edit or obs events; <= %d edits, <= %d obs, an "
+            "obs event only where another event can follow it within the length) over "
             "{deepcopy(tree_i)} x {add/remove symbol, add/remove equation, remove class on Leaf (component type) / Base "
             "(base of an extends) / Top, add class} x {obs: every class of the live tree_i through tree.flatten in "
             "place / sympy generate / xml generate, checked and kept in the history} on up to %d trees; after every "
-            "event every tree is observed on a replay of its own (flatten of a deep copy; every route an earlier obs "
+            "copy / edit event every tree is observed on a replay of its own (flatten of a deep copy; every route an earlier obs "
             "event went through; thorough: flatten in place always); reference = fresh parse carrying only that tree's edits, same route, "
             "computed up front; state = per-tree edit lists + copy ancestry + log of obs events (tree, route, tree's "
             "edit count, number of trees at that time) + joint structural fingerprint of the live trees"
-            % (depth, max_dev, MAX_OBS, MAX_TREES),
+            % (depth, max_dev, max_edits, MAX_OBS, MAX_TREES),
         }
     )
     ctx.assumptions.append("edits are applied through the AST API exactly as test/ast_test.py does")
@@ -339,7 +351,7 @@ def replay(case):
         elif ev[0] == "edit":
             per_tree[ev[1]] = per_tree[ev[1]] + ((ev[2], ev[3]),)
             lists.add(per_tree[ev[1]])
-    prepare_expected(sorted(p[:n] for p in lists for n in range(len(p) + 1)))
+    prepare_expected(sorted({p[:n] for p in lists for n in range(len(p) + 1)}))
     ok = True
     for n in range(len(hist)):
         _, v = step(hist[:n], hist[n])
